@@ -1,1 +1,11 @@
-from . import c18_trim  # noqa: F401
+"""registers every contract.  Lemma modules need z3 and are skipped under the
+repository's interpreter (native replay / bounded stand-ins only need contracts)."""
+from . import c18_trim, c08_terrain, c13_spectral  # noqa: F401
+
+try:
+    import z3  # noqa: F401
+    HAVE_Z3 = True
+except ImportError:
+    HAVE_Z3 = False
+if HAVE_Z3:
+    from . import c08_lemmas  # noqa: F401
